@@ -218,7 +218,7 @@ def run(ctx):
                         ctx.violation("self_round_trip", f"{b}: encoding ({form}) of a value nested {depth} levels is not the expected text", case)
                     if r[2]:
                         ctx.violation("raw_line_break_in_encoding", f"{b} ({form}): raw line break in deep encoding", case)
-            for form in ("dec_compact", "dec_spaced", "dec_bytes"):
+            for form in ("dec_compact", "dec_spaced", "dec_bytes", "file_positioned_text", "file_positioned_binary"):
                 ctx.count("deep_decodings")
                 r = rec[form]
                 if r[0] != "ok":
